@@ -108,6 +108,21 @@ func (g *shapeGenS) gen(depth int, underSecure bool) (reflect.Value, goVal) {
 			sl = reflect.Append(sl, v)
 			ds = append(ds, d)
 		}
+		// sparse slices: a nil entry in front of (or between) entries that hold secrets must not end the scrub
+		if k := first.Kind(); (k == reflect.Ptr || k == reflect.Slice || k == reflect.Map) && g.r.IntN(3) == 0 {
+			at := g.r.IntN(len(ds))
+			nsl := reflect.MakeSlice(sl.Type(), 0, len(ds)+1)
+			var nds []goVal
+			for i := 0; i < len(ds); i++ {
+				if i == at {
+					nsl = reflect.Append(nsl, reflect.Zero(first.Type()))
+					nds = append(nds, goVal{K: "nil"})
+				}
+				nsl = reflect.Append(nsl, sl.Index(i))
+				nds = append(nds, ds[i])
+			}
+			sl, ds = nsl, nds
+		}
 		return sl, goVal{K: "slice", Vs: ds}
 	case x < 88: // map[string]T
 		if g.unhand && g.r.IntN(3) == 0 {
